@@ -32,6 +32,16 @@ func runC18(p *eng.Prog, r *eng.Report, tier string) {
 			pt, _ := g.Where(key)
 			k := f.Norm(key, &pt)
 			okk := strings.HasPrefix(k, "jid.JID.String[") && !strings.Contains(k, ".Bare[") && !strings.Contains(k, ".Domain[") && !strings.Contains(k, "WithResource")
+			// the address under String() is a field or a parameter's field itself
+			// (c.addr, p.To, p.From): the result of a method call is some OTHER
+			// address as far as this rule can see (Channel.Addr() is the bare room
+			// address)
+			if okk {
+				inner := strings.TrimSuffix(strings.TrimPrefix(k, "jid.JID.String["), "]()")
+				if strings.HasSuffix(inner, ")") {
+					okk = false
+				}
+			}
 			c.r.Check("C18.1", f, "key of Client.managed ("+what+")", "T: every access keys the table by the occupant's full address in string form (X.String(), no Bare()/Domain())", key.Pos(), okk, "key is "+k)
 		}
 		for _, mu := range f.MapUpdates() {
